@@ -44,8 +44,9 @@ struct Outcome { case: String, imp: String, oracle: String, nontrivial: bool, no
 fn run_world(rs: &[(u8, usize)], ops: &[String], queries: &[Pfx]) -> Outcome {
     let mut rib = RealRib::new();
     let routers = rs.iter().map(|(a, n)| (IpAddr::V4(Ipv4Addr::new(203, 0, 113, *a)), (0..*n).map(|k| BmpPeer::plain(k as u32)).collect::<Vec<_>>())).collect::<Vec<_>>();
-    // different routers monitor different peers
-    let routers = routers.into_iter().enumerate().map(|(r, (ip, ps))| (ip, ps.into_iter().enumerate().map(|(k, _)| BmpPeer::plain((4 * r + k) as u32)).collect())).collect();
+    // every router monitors the same neighbour as its peer 0 (same address and AS seen from different routers);
+    // the other peers are different per router
+    let routers = routers.into_iter().enumerate().map(|(r, (ip, ps))| (ip, ps.into_iter().enumerate().map(|(k, _)| BmpPeer::plain(if k == 0 { 0 } else { (4 * r + k) as u32 })).collect())).collect();
     let mut w = BmpWorld::new(routers);
     let mut evs: Vec<Ev> = vec![];
     let mut notes: Vec<String> = vec![];
@@ -68,8 +69,13 @@ fn run_world(rs: &[(u8, usize)], ops: &[String], queries: &[Pfx]) -> Outcome {
         if r >= w.routers.len() { continue; }
         // who is up where, before the op
         let up_here: Vec<u32> = w.up_ids(r).into_iter().map(|x| x.1).collect();
-        let mut up_elsewhere: Vec<u32> = vec![];
-        for r2 in 0..w.routers.len() { if r2 != r { up_elsewhere.extend(w.up_ids(r2).into_iter().map(|x| x.1)); } }
+        let mut up_elsewhere: Vec<u32> = vec![];          // ids of peers up on other connections
+        let mut up_same_addr: Vec<u32> = vec![];          // ... of those, on a connection from the same address
+        for r2 in 0..w.routers.len() { if r2 != r {
+            let ids2: Vec<u32> = w.up_ids(r2).into_iter().map(|x| x.1).collect();
+            if rs[r2].0 == rs[r].0 { up_same_addr.extend(ids2.iter()); }
+            up_elsewhere.extend(ids2);
+        } }
         let peer_id = if let Op::PeerDown(_, k) = &op { w.routers[r].conn.as_ref().and_then(|c| if *k < c.peers.len() && c.peers[*k].up { c.ingress_of(*k) } else { None }) } else { None };
         let (em, note) = w.apply(&op, &mut rib.blobs);
         notes.push(note.split(|c| c == ':' || c == '(').next().unwrap_or("").split("-as-").next().unwrap().to_string());
@@ -83,11 +89,15 @@ fn run_world(rs: &[(u8, usize)], ops: &[String], queries: &[Pfx]) -> Outcome {
             let after = snapshot(&rib, queries);
             if let Some(f) = isolation(&before, &after, &ids) { fails.push(f); }
             match &op {
-                Op::PeerDown(..) => if Some(ids[0]) != peer_id { fails.push(format!("completeness:peer-down-withdrew-{}-not-the-peers-id-{:?}", ids[0], peer_id)); },
-                _ => if let Some(m) = up_here.iter().find(|i| !ids.contains(i)) { fails.push(format!("completeness:up-peer-{m}-not-withdrawn-at-session-end")); },
+                Op::PeerDown(..) => if Some(ids[0]) != peer_id { fails.push(format!("completeness:peer-down-withdrew-another-id {} instead of {:?}", ids[0], peer_id)); },
+                _ => if let Some(m) = up_here.iter().find(|i| !ids.contains(i)) { fails.push(format!("completeness:up-peer-not-withdrawn-at-session-end id {m}")); },
             }
-            if let Some(m) = ids.iter().find(|i| up_elsewhere.contains(i) && !up_here.contains(i)) {
-                fails.push(format!("identity:routers-from-one-address-share-router-id session end of router {r} withdrew id {m} of a peer that is up on another connection"));
+            if let Some(m) = ids.iter().find(|i| up_elsewhere.contains(i)) {
+                if up_same_addr.contains(m) {
+                    fails.push(format!("identity:routers-from-one-address-share-router-id session end of router {r} withdrew id {m} of a peer that is up on another connection from the same address"));
+                } else {
+                    fails.push(format!("isolation:session-end-withdrew-peer-of-another-router router {r} id {m}"));
+                }
             }
         }
         evs.push(em.ev);
@@ -142,8 +152,8 @@ fn run_session(sel: &[usize], ops: &[String]) -> Outcome {
     let imp = format!("{} | {} | {}", join(sel.iter().filter_map(|k| up.get(k).map(|id| format!("{k}:{id}"))), " "), join(ids.iter(), " "), downs.join(" "));
     // oracle: distinct headers that are up at the same time must not share an id; every up peer's id is among ids_for_parent
     let mut fails = vec![];
-    if views.len() != up.len() { fails.push(format!("session:peer-table-size {} vs {}", views.len(), up.len())); }
-    if let Some((k, id)) = up.iter().find(|(_, id)| !ids.contains(id)) { fails.push(format!("completeness:id-{id}-of-up-peer-{k}-not-in-ids-for-parent")); }
+    if views.len() != up.len() { fails.push(format!("session:peer-table-size-differs {} vs {}", views.len(), up.len())); }
+    if let Some((k, id)) = up.iter().find(|(_, id)| !ids.contains(id)) { fails.push(format!("completeness:up-peer-id-not-in-ids-for-parent id {id} header {k}")); }
     let ks: Vec<(&usize, &u32)> = up.iter().collect();
     for a in 0..ks.len() { for b in a + 1..ks.len() { if ks[a].1 == ks[b].1 {
         let (fa, fb) = (hs[*ks[a].0].0, hs[*ks[b].0].0);
